@@ -212,13 +212,20 @@ impl<R: Read + Seek> ReadBox<&mut R> for EsdsBox {
         let end = start + size;
         while current < end {
             let (desc_tag, desc_size) = read_desc(reader)?;
+            // A descriptor lies inside the box: its 28-bit length is an unchecked field, and
+            // following it past the end re-reads whatever comes next in the file.
+            let desc_end = reader.stream_position()? + desc_size as u64;
+            if desc_end > end {
+                return Err(Error::InvalidData("esds descriptor extends beyond the box"));
+            }
             match desc_tag {
                 0x03 => {
                     es_desc = Some(ESDescriptor::read_desc(reader, desc_size)?);
                 }
                 _ => break,
             }
-            current = reader.stream_position()?;
+            skip_bytes_to(reader, desc_end)?;
+            current = desc_end;
         }
 
         if es_desc.is_none() {
@@ -352,6 +359,12 @@ impl<R: Read + Seek> ReadDesc<&mut R> for ESDescriptor {
         let end = start + size as u64;
         while current < end {
             let (desc_tag, desc_size) = read_desc(reader)?;
+            let desc_end = reader.stream_position()? + desc_size as u64;
+            if desc_end > end {
+                return Err(Error::InvalidData(
+                    "descriptor extends beyond the ES descriptor that contains it",
+                ));
+            }
             match desc_tag {
                 0x04 => {
                     dec_config = Some(DecoderConfigDescriptor::read_desc(reader, desc_size)?);
@@ -359,11 +372,11 @@ impl<R: Read + Seek> ReadDesc<&mut R> for ESDescriptor {
                 0x06 => {
                     sl_config = Some(SLConfigDescriptor::read_desc(reader, desc_size)?);
                 }
-                _ => {
-                    skip_bytes(reader, desc_size as u64)?;
-                }
+                _ => {}
             }
-            current = reader.stream_position()?;
+            // continue after the descriptor, whatever part of it was understood
+            skip_bytes_to(reader, desc_end)?;
+            current = desc_end;
         }
 
         Ok(ESDescriptor {
@@ -445,15 +458,21 @@ impl<R: Read + Seek> ReadDesc<&mut R> for DecoderConfigDescriptor {
         let end = start + size as u64;
         while current < end {
             let (desc_tag, desc_size) = read_desc(reader)?;
+            let desc_end = reader.stream_position()? + desc_size as u64;
+            if desc_end > end {
+                return Err(Error::InvalidData(
+                    "descriptor extends beyond the decoder config descriptor that contains it",
+                ));
+            }
             match desc_tag {
                 0x05 => {
                     dec_specific = Some(DecoderSpecificDescriptor::read_desc(reader, desc_size)?);
                 }
-                _ => {
-                    skip_bytes(reader, desc_size as u64)?;
-                }
+                _ => {}
             }
-            current = reader.stream_position()?;
+            // continue after the descriptor, whatever part of it was understood
+            skip_bytes_to(reader, desc_end)?;
+            current = desc_end;
         }
 
         Ok(DecoderConfigDescriptor {
